@@ -48,9 +48,9 @@ WellFormed(l) ==
     /\ (l.prob \in {"xref", "markup"} <=> l.pos # "own")         \* field problems are their own construct
     /\ (l.prob = "param" => l.kind \in {"function", "method", "class"})
     \* typed: the Args / Parameters section documents three parameters with their types (napoleon writes a :type: line for each)
-    /\ (l.typed => l.fmt \in {"google", "numpy"} /\ l.prob = "param" /\ ~l.raw)
+    /\ (l.typed => l.fmt \in {"google", "numpy"} /\ l.prob = "param" /\ ~l.raw /\ l.k = 0)
     \* longws: the (only) leading blank line carries MORE white space than the docstring's indentation
-    /\ (l.longws => ~l.open /\ l.blanks = 1 /\ ~l.raw)
+    /\ (l.longws => ~l.open /\ l.blanks = 1 /\ ~l.raw /\ l.k = 0)
 
 Layouts == {l \in [kind : Kinds, fmt : Fmts, prob : Probs, pos : Poss, open : BOOLEAN,
                    blanks : BlankCounts, indent : Indents, raw : BOOLEAN, k : Ks, typed : BOOLEAN, longws : BOOLEAN] : WellFormed(l)}
